@@ -16,11 +16,11 @@ import (
 
 func init() {
 	register(&Prop{ID: "C09", Run: runC09, Enum: enumC09, Quick: 6000, Thorough: 400000, Level: "fault_enumeration",
-		Exhaustive: "adversary (12 kinds) x every stall offset k of the scripted frame x local state (10) x call (Close, CloseNow, CloseRead self-close) x role"})
+		Exhaustive: "adversary (12 kinds) x every stall offset k of the scripted frame x local state (11) x call (Close, CloseNow, CloseRead self-close) x role"})
 }
 
 var c09Adv = []string{"silent", "stall-data2", "stall-data4", "stall-data10", "stall-close", "flood", "huge", "never-reads", "half-close", "echo", "never-reads-sends-pongs", "late-ping-stall"}
-var c09State = []string{"idle", "reader-blocked", "half-read-in-frame", "half-read-frame-end", "closeread", "writer-blocked", "ping-waiting", "closeread+ping-waiting", "after-writer-misuse", "closed-then-closeread"}
+var c09State = []string{"idle", "reader-blocked", "half-read-in-frame", "half-read-frame-end", "closeread", "writer-blocked", "ping-waiting", "closeread+ping-waiting", "after-writer-misuse", "closed-then-closeread", "write-waiting-for-open-writer"}
 var c09Call = []string{"Close", "CloseNow", "none"}
 var c09EchoDelays = []time.Duration{0, 4900 * time.Millisecond, 5100 * time.Millisecond}
 
@@ -258,6 +258,20 @@ func runC09(r *Run) {
 			stateReady = true
 			_ = c.Write(bg, websocket.MessageBinary, Payload{Kind: 2, Len: 60000, Seed: 9}.Bytes())
 			*d = r.S.Now()
+		})
+	case 10:
+		// a streaming Writer is left open; a second Write waits for it (on the
+		// library's own message lock, not in the transport)
+		d := track("waiting-writer")
+		r.S.Go("opener", func() {
+			if w, err := c.Writer(bg, websocket.MessageText); err == nil {
+				w.Write([]byte("left open"))
+			}
+			r.S.Go("waiting-writer", func() {
+				stateReady = true
+				_ = c.Write(bg, websocket.MessageBinary, []byte("second message"))
+				*d = r.S.Now()
+			})
 		})
 	case 9:
 		// the connection is already closed when CloseRead is called for the first
